@@ -235,6 +235,14 @@ def run(ctx: Ctx) -> None:
     ok = bool(spn) and gh.must_pass(spn[0], [gh.exit], lambda n: n.id in fn_, skip_labels=("exc",)) is None
     ctx.check("C17.R8", wh, "after the application ran the response is finished once (more_body=False)", ok, "the response would never end", hh)
 
+    # a failing application must not get its response completed for it
+    ctx.rule("C17.R9", "when the WSGI application raises (sync_spawn propagates the exception) the adapter does not send the final more_body=False chunk: the failure reaches the server's application wrapper, which aborts the response instead of completing it", floor=1)
+    exc_succ = [m for m, lab in gh.succ[spn[0]] if lab == "exc"] if spn else []
+    reach_exc = gh.reach(exc_succ, include_starts=True) if exc_succ else set()
+    finishing = gh.where(has_stmt(lambda n: isinstance(n, ast.Call) and call_name(n) == "send" and "'more_body': False" in norm(n)))
+    bad = [n for n in finishing if n in reach_exc]
+    ctx.check("C17.R9", wh, "application failure does not reach the finishing send", bool(spn) and not bad, "the final empty body chunk is sent on the exceptional path too (finally / handler): a WSGI application that raises after its first chunk yields a response that parses as complete", gh.node(bad[0]).ast if bad else hh)
+
     ctx.assume("not decided: value-level equality of environ entries for arbitrary inputs (unicode paths), thread-pool behaviour, PEP 3333 exc_info semantics")
 
 
